@@ -135,6 +135,8 @@ def run_check(prop, tier):
         ctx.note("role-resolved anchor: %s is %s in this tree" % (canon, old_q))
     for new_p, old_p in sorted(getattr(F, "aliases", {}).items()):
         ctx.note("moved/renamed item: %s is %s in this tree" % (old_p, new_p))
+    for (adt_p, new_f), old_f in sorted(getattr(F, "field_aliases", {}).items()):
+        ctx.note("renamed field: %s.%s is .%s in this tree" % (adt_p, old_f, new_f))
     spec = PROPS[prop]
     for mname in spec["modules"]:
         mod = importlib.import_module("rules." + mname)
